@@ -371,6 +371,9 @@ package grpcgcp
 //@   ensures [C02.place-delta-none] $ret1 != nil ==> $ret0 == nil
 //@   callsite streamsIncr#2 asserts [C02.select-and-count-atomic] held(p.mu)
 //@   ensures [C09.only-bind] !(cmd == pb.AffinityConfig_BIND && p.gb.cfg.GetChannelPool().GetBindPickStrategy() == pb.ChannelPoolConfig_ROUND_ROBIN) ==> p.gb.rrRefId == old(p.gb.rrRefId)
+// a round-robin BIND call is handed exactly the slot the round-robin function handed out (which is READY or the call's
+// context ended, by that function's contract): the picker adds no path around the wait
+//@   ensures [C09.bind-handout] cmd == pb.AffinityConfig_BIND && p.gb.cfg.GetChannelPool().GetBindPickStrategy() == pb.ChannelPoolConfig_ROUND_ROBIN ==> $ret0 != nil && $ret0 == $call("getSubConnRoundRobin#1") && $ret1 == nil
 //@   ensures [C04.gcppicker-not-tf] $ret1 == nil || $ret1 == balancer.ErrNoSubConnAvailable
 //@ func (p *gcpPicker) getSubConnRef
 //@   inline
